@@ -21,6 +21,44 @@ HARNESSES = {
 }
 
 
+# thorough tier only: cross-checks of ASSUMED dependency contracts (never counted as proved, never deciding)
+RLP_HARNESSES = [
+    ('vp_kani_rlp::header_decode_conforms', 'alloy_rlp::Header::decode == spec parse_hdr on every buffer of <= 12 bytes (header analysis complete; payload-fits bounded)'),
+    ('vp_kani_rlp::u16_decode_conforms', '<u16 as Decodable>::decode == uint_ok(.,2) / be_val on every buffer of <= 6 bytes'),
+    ('vp_kani_rlp::u16_encode_conforms', '<u16 as Encodable>::encode/length == rlp_uint for all 65536 values (complete)'),
+    ('vp_kani_rlp::header_decode_bytes_conforms', 'Header::decode_bytes(buf, is_list): Ok <==> header kind matches; exact payload slice and advance; buffers <= 12 bytes'),
+    ('vp_kani_rlp::u64_decode_conforms', '<u64 as Decodable>::decode == uint_ok(.,8) / be_val on every buffer of <= 11 bytes'),
+    ('vp_kani_rlp::header_encode_conforms', 'Header::encode/length == spec hdr(list, n) for every list flag and every usize n (complete)'),
+]
+RLP_PROPS = ('C02', 'C04', 'C07', 'C13', 'C14')
+
+
+def run_rlp_conformance(timeout=900):
+    d = scratch_copy()
+    out = []
+    try:
+        p = os.path.join(d, 'src', 'lib.rs')
+        open(p, 'a').write(open(os.path.join(D.VERIF, 'kani', 'rlp_conformance.rs')).read())
+        env = dict(os.environ)
+        env['CARGO_NET_OFFLINE'] = 'true'
+        env['CARGO_TARGET_DIR'] = os.path.join(d, 'target')
+        for h, what in RLP_HARNESSES:
+            cmd = ['cargo', 'kani', '--harness', h]
+            t0 = time.time()
+            try:
+                r = subprocess.run(cmd, cwd=d, env=env, stdout=subprocess.PIPE, stderr=subprocess.STDOUT, text=True, timeout=timeout)
+                txt = r.stdout
+            except subprocess.TimeoutExpired:
+                out.append({'harness': h, 'status': 'undecided', 'what': what, 'wall_s': time.time() - t0})
+                continue
+            ok = 'VERIFICATION:- SUCCESSFUL' in txt
+            out.append({'harness': h, 'status': 'ok' if ok else ('fail' if 'VERIFICATION:- FAILED' in txt else 'undecided'), 'what': what,
+                        'wall_s': round(time.time() - t0, 1), 'cmd': 'CARGO_NET_OFFLINE=true ' + ' '.join(cmd), 'bounded': True})
+    finally:
+        shutil.rmtree(d, ignore_errors=True)
+    return out
+
+
 def scratch_copy():
     d = tempfile.mkdtemp(prefix='vp_kani_')
     for f in ('Cargo.toml', 'Cargo.lock'):
